@@ -959,6 +959,18 @@ def check_C15(tier):
     scenario_unkeyable(run, 2 if t else 1, 20)
     scenario_recursive(run, 1000 if t else 150, raising=True)
     scenario_probes(run, {'bulk', 'purge_off', 'clear'}, backends=('dictarch', 'file'))
+    # two klepto decorators stacked: info(), clear(), key(), lookup(), __cache__() of the result are the OUTER decorator's
+    rng = run.rng
+    for _ in range(400 if t else 70):
+        module = rng.choice(['std', 'safe'])
+        backend = rng.choice(['plain', 'dictarch', 'file'])
+        cfg = py_cfg(module, rng.choice(ALLALG), rng.choice([1, 2, 3]), backend, rng.choice([('str', True, False), ('hash-md5', True, False)]),
+                     purge=rng.random() < 0.3)
+        cfg['stacked'] = True
+        # (one spelling per call: the outer decorator sees the inner wrapper's (*args, **kwds) and cannot tell that f(1, 0)
+        # and f(1) are the same call - less sharing, not a wrong answer, and inherent in stacking)
+        ops = [dict(o, a=o['a'] - 4) if o.get('a') in (5, 6, 7) else o for o in cd.random_ops(rng, 26 if t else 20, cfg, 9, 'mixed')]
+        run.jobs.append((cfg, ops, None))
     # one decorator object on two functions: calls of the sibling are not part of f's account.  (Only the decorators without
     # eviction: the two wrappers share the cache but not the recency / frequency bookkeeping, which is the user's risk.)
     rng = run.rng
